@@ -95,10 +95,10 @@ theorem abs_K (c : Int) (Q : α) (s : Int) :
     L.abs (o.dmul (o.n - c) Q s o.gen) = s • L.abs o.gen - c • L.abs Q := by
   rw [L.abs_dmul, sub_zsmul, L.order]; abel
 
-theorem assertCore_ok_iff (c : Int) (Q : α) (r s : Int) :
+theorem assertCore_ok_iff' (c : Int) (Q : α) (r s : Int) :
     assertCore o c Q r s = .ok () ↔
       o.isZero (o.dmul (o.n - c) Q s o.gen) = false ∧ o.hasEvenY (o.dmul (o.n - c) Q s o.gen) = true ∧
-      o.x (o.dmul (o.n - c) Q s o.gen) = r := by
+      o.x (o.dmul (o.n - c) Q s o.gen) = r % o.p := by
   unfold assertCore
   dsimp only
   by_cases h1 : o.isZero (o.dmul (o.n - c) Q s o.gen) = true
@@ -107,7 +107,14 @@ theorem assertCore_ok_iff (c : Int) (Q : α) (r s : Int) :
     by_cases h2 : o.hasEvenY (o.dmul (o.n - c) Q s o.gen) = false
     · simp [h1', h2]
     · have h2' : o.hasEvenY (o.dmul (o.n - c) Q s o.gen) = true := by simpa using h2
-      by_cases h3 : o.x (o.dmul (o.n - c) Q s o.gen) = r <;> simp [h1', h2', h3]
+      by_cases h3 : o.x (o.dmul (o.n - c) Q s o.gen) = r % o.p <;> simp [h1', h2', h3]
+
+/-- for an `r` that is a field element (every public caller's case) the comparison is with `r` itself -/
+theorem assertCore_ok_iff (c : Int) (Q : α) (r s : Int) (hr : 0 ≤ r ∧ r < o.p) :
+    assertCore o c Q r s = .ok () ↔
+      o.isZero (o.dmul (o.n - c) Q s o.gen) = false ∧ o.hasEvenY (o.dmul (o.n - c) Q s o.gen) = true ∧
+      o.x (o.dmul (o.n - c) Q s o.gen) = r := by
+  rw [assertCore_ok_iff', Int.emod_eq_of_lt hr.1 hr.2]
 
 /-- the heart of completeness: a signature made by `_sign_` from normalised `(q', k')` passes
     `_assert_as_valid_` under the lifted key -/
@@ -124,7 +131,13 @@ theorem signCore_verifies (Y : YCongr L) (c q' k' xQ xK : Int) (sg : Sig)
     · cases h
     · next hv =>
       cases h
-      refine ⟨rfl, by cases hu : sigValid o ⟨xK, (k' + c * q') % o.n⟩ <;> simp_all, ?_⟩
+      have hsv : sigValid o ⟨xK, (k' + c * q') % o.n⟩ = .ok () := by
+        cases hu : sigValid o ⟨xK, (k' + c * q') % o.n⟩ <;> simp_all
+      have hrng : 0 ≤ xK ∧ xK < o.p := by
+        have := ((sigValid_ok_iff (o := o) ⟨xK, (k' + c * q') % o.n⟩).1 hsv).1
+        simp only [isXCoord, Bool.and_eq_true, decide_eq_true_eq] at this
+        exact this.1
+      refine ⟨rfl, hsv, ?_⟩
       -- the lifted key
       have hPq := hq.2.2 (o.mul q' o.gen) (L.abs_mul _ _)
       have hPq0 : L.abs (o.mul q' o.gen) ≠ 0 := L.mul_gen_ne_zero q' hq.1 hq.2.1
@@ -137,7 +150,7 @@ theorem signCore_verifies (Y : YCongr L) (c q' k' xQ xK : Int) (sg : Sig)
       have hK0 : L.abs (o.dmul (o.n - c) Q ((k' + c * q') % o.n) o.gen) ≠ 0 := by
         rw [hK, ← L.abs_mul]; exact L.mul_gen_ne_zero k' hk.1 hk.2.1
       have hKk := hk.2.2 _ hK
-      rw [assertCore_ok_iff]
+      rw [assertCore_ok_iff _ _ _ _ hrng]
       refine ⟨?_, hKk.1, hKk.2⟩
       cases hz : o.isZero (o.dmul (o.n - c) Q ((k' + c * q') % o.n) o.gen) with
       | false => rfl
@@ -237,12 +250,12 @@ theorem verify_iff (Y : YCongr L) (msg : Bytes) (xQ : Int) (sg : Sig) :
           · next c hc =>
             obtain ⟨rfl, hc0⟩ := (challenge_ok_iff prm msg xQ sg.r c).1 hc
             refine ⟨hx.1.1, hx.1.2, hs0, hsn, Q, hQ, hc0, ?_⟩
-            have := (assertCore_ok_iff (challengeInt o prm msg xQ sg.r) Q sg.r sg.s).1 hres
+            have := (assertCore_ok_iff (challengeInt o prm msg xQ sg.r) Q sg.r sg.s hx.1).1 hres
             exact (transfer _ _ (key _ Q)).1 this
     · cases h
   · rintro ⟨hr0, hrp, hs0, hsn, Q, hQ, hc0, hK⟩
     have hK' := (transfer _ _ (key _ Q)).2 hK
-    have hcore := (assertCore_ok_iff _ Q sg.r sg.s).2 hK'
+    have hcore := (assertCore_ok_iff _ Q sg.r sg.s ⟨hr0, hrp⟩).2 hK'
     have hKne : L.abs (o.dmul (o.n - challengeInt o prm msg xQ sg.r) Q sg.s o.gen) ≠ 0 := by
       intro h0; have := (L.isZero_iff _).2 h0; rw [hK'.1] at this; cases this
     have hx : isXCoord o sg.r = true := by
